@@ -123,6 +123,9 @@ SCHEDULE_PAIRS = [
     (ev('vatin', 'validate', 'XI432525179'), ev('vatin', 'validate', 'GB432525179')),
     (ev('util', 'get_cc_module', 'be', 'vat'), ev('util', 'get_cc_module', 'be', 'iban')),
 ]
+# numbers that pass the generic rules of a wrapper but fail in the national module (correct IBAN check digits over a BBAN
+# with wrong national check digits)
+FAILING_INPUTS = {'stdnum.iban': ['ES1512341234171234567890', 'ES2121000418450200051331']}
 IMPORT_RACE_PAIRS = [
     # a nationally invalid IBAN (generic rules fine, wrong CCC check digits) while the national module is being imported
     (ev('iban', 'validate', 'ES7712341234161234567890'), ev('iban', 'is_valid', 'ES1512341234171234567890')),
@@ -826,6 +829,18 @@ def work(item):
                     for v in vv[:2]:
                         arg = v if not fn.startswith('calc_') else v[:-1]
                         evs.append((name, fn, (arg,), tuple(sorted(o.items()))))
+                    # calls that fail: a mistyped number (one digit in the middle changed) and numbers that pass the generic
+                    # rules only -- a failing call must not leave anything behind for the next call with other options
+                    bad = []
+                    if vv:
+                        v = vv[0]
+                        k = next((i for i in range(len(v) // 2, len(v)) if v[i].isdigit()), None)
+                        if k is not None:
+                            bad.append(v[:k] + str((int(v[k]) + 1) % 10) + v[k + 1:])
+                    bad += FAILING_INPUTS.get(name, [])
+                    for v in bad:
+                        if not fn.startswith('calc_'):
+                            evs.append((name, fn, (v,), tuple(sorted(o.items()))))
                 for a in evs:
                     for b in evs:
                         n += 1
